@@ -504,7 +504,29 @@ impl<'tcx> Cx<'tcx> {
                 match self.tcx.global_alloc(prov.alloc_id()) {
                     GlobalAlloc::Static(sd) => tg.push(J::s(format!("static:{}", path_of(self.tcx, sd)))),
                     GlobalAlloc::Function { instance } => tg.push(J::s(format!("fn:{}", inst_key(self.tcx, &instance)))),
-                    GlobalAlloc::Memory(_) => tg.push(J::s("mem")),
+                    GlobalAlloc::Memory(m2) => {
+                        let a2 = m2.inner();
+                        if a2.provenance().ptrs().is_empty() && a2.len() <= 256 {
+                            let b2 = a2.inspect_with_uninit_and_ptr_outside_interpreter(0..a2.len());
+                            tg.push(J::s(format!("mem:{}", String::from_utf8_lossy(b2))));
+                        } else if a2.len() <= 4096 {
+                            // nested allocation with pointers (e.g. `&[&str]`): one more level
+                            let inner = self.alloc_bytes(a2);
+                            let mut nested = Vec::new();
+                            if let J::Obj(iv) = inner {
+                                for (k, x) in iv.into_iter() {
+                                    if k == "ptr_targets" {
+                                        if let J::Arr(xs) = x {
+                                            nested = xs;
+                                        }
+                                    }
+                                }
+                            }
+                            tg.push(J::Arr(nested));
+                        } else {
+                            tg.push(J::s("mem"));
+                        }
+                    }
                     _ => tg.push(J::s("other")),
                 }
             }
